@@ -24,9 +24,11 @@ META = dict(
                "logged call time, count and Deferred result matched.",
     level_note="Trusted: TLC, task.Clock as the controlled clock (C09 checks it), the adapter's logging. Times are dyadic so "
                "float rounding in the real arithmetic is exact; non-dyadic intervals (rounding drift) are not decided. "
-               "interval=0 and restarting a stopped loop are outside the property. Where the property is silent (count "
-               "carried across reset(), when start()'s Deferred fires if stop() is called during an outstanding call) the "
-               "spec accepts any of the reasonable outcomes.",
+               "interval=0 and restarting a stopped loop are outside the property, and so is reset(): histories containing "
+               "reset() are generated, but from the first reset on only no-overlap, no-call-after-stop/failure and "
+               "start()-Deferred-exactly-once are decided (differences in call times / counts after a reset are reported as "
+               "impl_drift). Where the property is silent (when start()'s Deferred fires if stop() is called during an "
+               "outstanding call) the spec accepts any of the reasonable outcomes.",
     design_ref="2.4 C10",
     rule="history = start + sequence of advance(d)/fire(ok|fail)/stop/reset on one LoopingCall with a script of function "
          "behaviours; distinct = hash of (cfg, events); non-trivial = at least two different event kinds and at least one call",
@@ -45,6 +47,8 @@ def run_history(cfg, ops, behs):
           with "stop": the function first calls stop() on its own loop); "ret" when exhausted."""
     from twisted.internet import task, defer
 
+    cfg = dict(cfg)
+    cfg.setdefault("strict", False)     # the verdict does not extend to call times / counts after a reset() (see Looping.tla)
     unit = 2.0 ** -cfg["k"]
     clock = task.Clock()
     if cfg["t0"]:
@@ -197,6 +201,7 @@ def from_behaviour(b):
     """A TLC-generated behaviour of LoopingSim -> (cfg, ops, behs)."""
     cfg = dict(b["cfg"])
     cfg["k"] = 2
+    cfg["strict"] = False
     ops, behs = [], []
     for h in b["hist"]:
         for c in h["calls"]:
@@ -247,10 +252,8 @@ def fingerprint(trace, rej, count_only=False):
     e = evs[rej.reached]
     prior = evs[:rej.reached]
     kinds = []
-    lastcall = max([i for i, x in enumerate(prior) if x["calls"]] or [-1])
-    nres = sum(1 for x in prior[lastcall + 1:] if x["e"] == "reset" and x["res"] == "ok")
-    if nres:
-        kinds.append("resetsSincePrevCall=%s" % (1 if nres == 1 else "2+"))
+    if _has_reset({"ev": prior}):
+        kinds.append("afterReset")
     if any(x["sd"] for x in prior):
         kinds.append("afterStartDFired")
     outstanding = sum(1 for x in prior for c in x["calls"] if c["b"].endswith("defer")) - sum(1 for x in prior if x["e"] == "fire")
@@ -261,6 +264,44 @@ def fingerprint(trace, rej, count_only=False):
         what = "countOnly"      # TLC accepts the same execution once the count arguments are ignored
     mode = "" if count_only else ("/now" if trace["cfg"]["nowFlag"] else "/later")
     return "%s/%s/%s%s%s" % (e["e"], what, "wc" if trace["cfg"]["wc"] else "plain", mode, ("/" + "+".join(kinds)) if kinds else "")
+
+
+def _has_reset(t):
+    return any(e["e"] == "reset" and e["res"] == "ok" for e in t["ev"])
+
+
+def _strict(t):
+    import copy
+    u = copy.deepcopy(t)
+    u["cfg"]["strict"] = True
+    return u
+
+
+def _reset_drift(ctx, traces, bad):
+    """reset() is outside property C10: where the real code differs, after a reset, from the re-based grid / count rule that
+    Looping.tla describes under cfg.strict, that is recorded in the evidence (impl_drift), never reported as a violation."""
+    cand = [t for i, t in enumerate(traces) if i not in bad and _has_reset(t)]
+    ctx.extra["histories_with_reset"] = len(cand)
+    if not cand:
+        return
+    strict = [_strict(t) for t in cand]
+    rej = ctx.validate("LoopingTrace", strict, shard_size=4000, count=False)
+    count_only = 0
+    wc = [x for x in rej if strict[x.idx]["cfg"]["wc"]]
+    if wc:
+        again = ctx.validate("LoopingTrace", [_without_counts(strict[x.idx]) for x in wc], count=False)
+        still = {r.idx: r.reached for r in again}
+        count_only = sum(1 for j, x in enumerate(wc) if j not in still or still[j] > x.reached)
+    ctx.impl_drift = len(rej)
+    ctx.extra["reset_histories_differing_from_rebased_grid_model"] = len(rej)
+    ctx.extra["reset_histories_differing_in_count_argument_only"] = count_only
+    if rej:
+        x = rej[0]
+        t = strict[x.idx]
+        ctx.extra["reset_drift_example"] = dict(cfg=t["cfg"], ops=t["ops"], behs=t["behs"], at_event=x.reached,
+                                                event=t["ev"][x.reached] if x.reached < len(t["ev"]) else None)
+    ctx.log("reset() (outside the property): %d histories, %d differ from the re-based-grid model (%d in the count argument only) -> impl_drift"
+            % (len(cand), len(rej), count_only))
 
 
 def _without_counts(t):
@@ -326,7 +367,6 @@ def run(ctx):
         traces.append(t)
     ctx.extra["spec_behaviours_replayed"] = len(behs)
     ctx.extra["spec_behaviours_other_allowed_outcome"] = drift   # spec is nondeterministic where the property is silent
-    ctx.impl_drift = drift
     for t in traces:
         kinds = {e["e"] for e in t["ev"]}
         ctx.note_trace(t, nontrivial=len(kinds) >= 2 and any(e["calls"] for e in t["ev"]))
@@ -334,7 +374,8 @@ def run(ctx):
     rej = ctx.validate("LoopingTrace", traces, shard_size=4000)
     _report(ctx, traces, rej, "recorded")
     bad = {x.idx for x in rej}
-    good = [t for i, t in enumerate(traces) if i not in bad]
+    _reset_drift(ctx, traces, bad)
+    good = [t for i, t in enumerate(traces) if i not in bad and not _has_reset(t)]
     ctx.selftest_rejects("LoopingTrace", good[-400:], mutate, n=24)
 
 
